@@ -202,4 +202,51 @@ theorem stuck_run (c : Schedule) (spe : UInt64) (ha : c.altairEpoch = 0) :
     have := ih (m + 1) (by omega)
     have e : m + 1 + k = m + (k + 1) := by omega
     rw [this, e]
+theorem stateDomain_eq_forkAt_aux (c : Schedule) (hmono : c.Monotone) (spe : UInt64) (n : Nat) (e : UInt64)
+    (hup : e.toNat ≤ n / spe.toNat)
+    (hlo : forkAt c (n / spe.toNat) = forkAt c 0 ∨ c.epochOf (forkAt c (n / spe.toNat)).pred ≤ e.toNat) :
+    domainVersion (specState c spe n) e = c.versionOf (forkAt c e.toNat) := by
+  obtain ⟨h1, h2, h3, h4, h5⟩ := hmono
+  simp only [domainVersion, specState, Nat.zero_div, UInt64.lt_iff_toNat_lt] at *
+  generalize n / spe.toNat = E at *
+  rw [forkAt_cases c ⟨h1, h2, h3, h4, h5⟩ E, forkAt_cases c ⟨h1, h2, h3, h4, h5⟩ 0,
+    forkAt_cases c ⟨h1, h2, h3, h4, h5⟩ e.toNat] at *
+  generalize hx : e.toNat = x at *
+  by_cases z1 : 0 < c.altairEpoch.toNat
+  all_goals by_cases z2 : 0 < c.bellatrixEpoch.toNat
+  all_goals first | (exfalso; omega) | skip
+  all_goals by_cases z3 : 0 < c.capellaEpoch.toNat
+  all_goals first | (exfalso; omega) | skip
+  all_goals by_cases z4 : 0 < c.denebEpoch.toNat
+  all_goals first | (exfalso; omega) | skip
+  all_goals by_cases z5 : 0 < c.electraEpoch.toNat
+  all_goals first | (exfalso; omega) | skip
+  all_goals by_cases z6 : 0 < c.fuluEpoch.toNat
+  all_goals first | (exfalso; omega) | skip
+  all_goals by_cases a1 : E < c.altairEpoch.toNat
+  all_goals first | (exfalso; omega) | skip
+  all_goals by_cases a2 : E < c.bellatrixEpoch.toNat
+  all_goals first | (exfalso; omega) | skip
+  all_goals by_cases a3 : E < c.capellaEpoch.toNat
+  all_goals first | (exfalso; omega) | skip
+  all_goals by_cases a4 : E < c.denebEpoch.toNat
+  all_goals first | (exfalso; omega) | skip
+  all_goals by_cases a5 : E < c.electraEpoch.toNat
+  all_goals first | (exfalso; omega) | skip
+  all_goals by_cases a6 : E < c.fuluEpoch.toNat
+  all_goals first | (exfalso; omega) | skip
+  all_goals by_cases b1 : x < c.altairEpoch.toNat
+  all_goals first | (exfalso; omega) | skip
+  all_goals by_cases b2 : x < c.bellatrixEpoch.toNat
+  all_goals first | (exfalso; omega) | skip
+  all_goals by_cases b3 : x < c.capellaEpoch.toNat
+  all_goals first | (exfalso; omega) | skip
+  all_goals by_cases b4 : x < c.denebEpoch.toNat
+  all_goals first | (exfalso; omega) | skip
+  all_goals by_cases b5 : x < c.electraEpoch.toNat
+  all_goals first | (exfalso; omega) | skip
+  all_goals by_cases b6 : x < c.fuluEpoch.toNat
+  all_goals first | (exfalso; omega) | skip
+  all_goals simp [*, Fork.pred, Schedule.versionOf, Schedule.epochOf] at hlo ⊢
+  all_goals first | omega | (intro hh; exfalso; omega) | skip
 end Zrnt.Proofs.Upgrade
